@@ -208,10 +208,10 @@ def roots : List Root := [
   ⟨[5], true, false, true, [5], []⟩,  -- 10 prompter.runScene#1 (task prompt.go:209) if err := runAsyncTask(lineCtx, pr.stopper, func(ctx context.Context) {
   ⟨[6], true, false, true, [6], []⟩,  -- 11 spotMgr.manageSpotlights#1 (worker spotlight.go:74) runWorker(spotCtx, spm.stopper, func(ctx context.Context) {
   ⟨[9, 10], false, false, true, [9, 10], []⟩,  -- 12 actor.runActorCommandWithConsumer#1[runActorCommand$1] (go commands.go:157) go func() {
-  ⟨[9, 10], true, false, false, [], []⟩,  -- 13 actor.runActorCommandWithConsumer#2[runActorCommand$1] (go commands.go:227) go func() {
-  ⟨[9, 10, 11], true, false, false, [], []⟩,  -- 14 runReaderAsync#1 (worker commands.go:388) runWorker(readCtx, stopper, func(ctx context.Context) {
+  ⟨[9, 10], true, false, false, [], []⟩,  -- 13 actor.runActorCommandWithConsumer#2[runActorCommand$1] (go commands.go:226) go func() {
+  ⟨[9, 10, 11], true, false, false, [], []⟩,  -- 14 runReaderAsync#1 (worker commands.go:384) runWorker(readCtx, stopper, func(ctx context.Context) {
   ⟨[11], false, true, true, [11], []⟩,  -- 15 actor.runActorCommandWithConsumer#1[spotlight$1] (go commands.go:157) go func() {
-  ⟨[11], true, false, false, [], []⟩  -- 16 actor.runActorCommandWithConsumer#2[spotlight$1] (go commands.go:227) go func() {
+  ⟨[11], true, false, false, [], []⟩  -- 16 actor.runActorCommandWithConsumer#2[spotlight$1] (go commands.go:226) go func() {
 ]
 
 namespace R
@@ -742,15 +742,15 @@ def g7 : List Access := [
 
 /-- actor.actionScripts[] -/
 def g8 : List Access := [
-  A 0 8 true false [] false [(1, .pre), (2, .pre), (3, .pre), (4, .pre)],  -- actor.prepareActionCommands commands.go:283 
+  A 0 8 true false [] false [(1, .pre), (2, .pre), (3, .pre), (4, .pre)],  -- actor.prepareActionCommands commands.go:279 
   A 10 8 false false [] true [(13, .mid), (14, .mid)]  -- actor.runAction prompt.go:352 
 ]
 
 /-- actor.cleanupScript -/
 def g9 : List Access := [
   A 1 9 false false [] true [(9, .mid)],  -- app.runCleanup$1 conductor.go:343 
-  A 0 9 true false [] false [(1, .pre), (2, .pre), (3, .pre), (4, .pre)],  -- actor.prepareActionCommands commands.go:296 
-  A 0 9 false false [] false [(1, .pre), (2, .pre), (3, .pre), (4, .pre)]  -- actor.prepareActionCommands commands.go:297 
+  A 0 9 true false [] false [(1, .pre), (2, .pre), (3, .pre), (4, .pre)],  -- actor.prepareActionCommands commands.go:292 
+  A 0 9 false false [] false [(1, .pre), (2, .pre), (3, .pre), (4, .pre)]  -- actor.prepareActionCommands commands.go:293 
 ]
 
 /-- actor.hasData -/
@@ -761,18 +761,18 @@ def g10 : List Access := [
 
 /-- actor.spotlightScript -/
 def g11 : List Access := [
-  A 0 11 true false [] false [(1, .pre), (2, .pre), (3, .pre), (4, .pre)],  -- actor.prepareActionCommands commands.go:289 
-  A 0 11 false false [] false [(1, .pre), (2, .pre), (3, .pre), (4, .pre)],  -- actor.prepareActionCommands commands.go:290 
+  A 0 11 true false [] false [(1, .pre), (2, .pre), (3, .pre), (4, .pre)],  -- actor.prepareActionCommands commands.go:285 
+  A 0 11 false false [] false [(1, .pre), (2, .pre), (3, .pre), (4, .pre)],  -- actor.prepareActionCommands commands.go:286 
   A 11 11 false false [] true [(14, .pre), (15, .pre), (16, .pre)]  -- spotMgr.spotlight spotlight.go:136 
 ]
 
 /-- actor.workDir -/
 def g12 : List Access := [
-  A 9 12 false false [] true [(12, .pre), (13, .pre), (14, .pre)],  -- actor.makeShCmd commands.go:366 
-  A 0 12 false false [] false [(1, .pre), (2, .pre), (3, .pre), (4, .pre)],  -- actor.prepareActionCommands commands.go:277 
+  A 9 12 false false [] true [(12, .pre), (13, .pre), (14, .pre)],  -- actor.makeShCmd commands.go:362 
+  A 0 12 false false [] false [(1, .pre), (2, .pre), (3, .pre), (4, .pre)],  -- actor.prepareActionCommands commands.go:273 
   A 0 12 true false [] false [(1, .pre), (2, .pre), (3, .pre), (4, .pre)],  -- config.prepareDirs config.go:209 
-  A 10 12 false false [] true [(13, .mid), (14, .mid)],  -- actor.makeShCmd commands.go:366 
-  A 11 12 false false [] true [(14, .pre), (15, .pre), (16, .pre)]  -- actor.makeShCmd commands.go:366 
+  A 10 12 false false [] true [(13, .mid), (14, .mid)],  -- actor.makeShCmd commands.go:362 
+  A 11 12 false false [] true [(14, .pre), (15, .pre), (16, .pre)]  -- actor.makeShCmd commands.go:362 
 ]
 
 /-- app.isTerminal -/
@@ -1263,57 +1263,57 @@ def g80 : List Access := [
 
 /-- errorCollection.errs -/
 def g81 : List Access := [
-  A 12 81 false false [] true [],  -- actor.runActorCommandWithConsumer$1 commands.go:203 
-  A 12 81 true false [] true [],  -- actor.runActorCommandWithConsumer$1 commands.go:203 
-  A 15 81 false false [] true [],  -- actor.runActorCommandWithConsumer$1 commands.go:203 
-  A 15 81 true false [] true [],  -- actor.runActorCommandWithConsumer$1 commands.go:203 
+  A 12 81 false false [] true [],  -- actor.runActorCommandWithConsumer$1 commands.go:202 
+  A 12 81 true false [] true [],  -- actor.runActorCommandWithConsumer$1 commands.go:202 
+  A 15 81 false false [] true [],  -- actor.runActorCommandWithConsumer$1 commands.go:202 
+  A 15 81 true false [] true [],  -- actor.runActorCommandWithConsumer$1 commands.go:202 
   A 1 81 false false [] true [(5, .mid), (6, .mid), (7, .mid), (8, .mid)],  -- combineErrors errors.go:49 
-  A 9 81 false false [] true [(12, .post), (13, .mid), (14, .mid)],  -- actor.runActorCommandWithConsumer commands.go:264 
+  A 9 81 false false [] true [(12, .post), (13, .mid), (14, .mid)],  -- actor.runActorCommandWithConsumer commands.go:260 
   A 8 81 false false [] true [],  -- combineErrors errors.go:49 
   A 7 81 false false [] true [],  -- combineErrors errors.go:49 
   A 0 81 false false [] false [(1, .mid), (2, .mid), (3, .mid), (4, .mid)],  -- combineErrors errors.go:49 
   A 0 81 false false [] false [(1, .post), (2, .mid), (3, .mid), (4, .mid)],  -- isError errors.go:29 
-  A 10 81 false false [] true [(13, .mid), (14, .mid)],  -- actor.runActorCommandWithConsumer commands.go:264 
+  A 10 81 false false [] true [(13, .mid), (14, .mid)],  -- actor.runActorCommandWithConsumer commands.go:260 
   A 5 81 false false [] true [],  -- combineErrors errors.go:49 
-  A 11 81 false false [] true [(14, .mid), (15, .post), (16, .mid)],  -- actor.runActorCommandWithConsumer commands.go:264 
+  A 11 81 false false [] true [(14, .mid), (15, .post), (16, .mid)],  -- actor.runActorCommandWithConsumer commands.go:260 
   A 6 81 false false [] true []  -- combineErrors errors.go:49 
 ]
 
 /-- errorCollection.errs[] -/
 def g82 : List Access := [
-  A 12 82 true false [] true [],  -- actor.runActorCommandWithConsumer$1 commands.go:203 
-  A 15 82 true false [] true [],  -- actor.runActorCommandWithConsumer$1 commands.go:203 
+  A 12 82 true false [] true [],  -- actor.runActorCommandWithConsumer$1 commands.go:202 
+  A 15 82 true false [] true [],  -- actor.runActorCommandWithConsumer$1 commands.go:202 
   A 1 82 false false [] true [(5, .mid), (6, .mid), (7, .mid), (8, .mid)],  -- combineErrors errors.go:49 
   A 9 82 true false [] true [(12, .pre), (13, .pre), (14, .mid)],  -- actor.runActorCommandWithConsumer commands.go:117 
-  A 9 82 false false [] true [(12, .post), (13, .mid), (14, .mid)],  -- actor.runActorCommandWithConsumer commands.go:271 
+  A 9 82 false false [] true [(12, .post), (13, .mid), (14, .mid)],  -- actor.runActorCommandWithConsumer commands.go:267 
   A 8 82 false false [] true [],  -- combineErrors errors.go:49 
   A 7 82 false false [] true [],  -- combineErrors errors.go:49 
   A 0 82 false false [] false [(1, .mid), (2, .mid), (3, .mid), (4, .mid)],  -- combineErrors errors.go:49 
   A 0 82 false false [] false [(1, .post), (2, .mid), (3, .mid), (4, .mid)],  -- isError ? 
   A 10 82 true false [] true [(13, .mid), (14, .mid)],  -- actor.runActorCommandWithConsumer commands.go:117 
-  A 10 82 false false [] true [(13, .mid), (14, .mid)],  -- actor.runActorCommandWithConsumer commands.go:271 
+  A 10 82 false false [] true [(13, .mid), (14, .mid)],  -- actor.runActorCommandWithConsumer commands.go:267 
   A 5 82 false false [] true [],  -- combineErrors errors.go:49 
   A 11 82 true false [] true [(14, .mid), (15, .pre), (16, .pre)],  -- actor.runActorCommandWithConsumer commands.go:117 
-  A 11 82 false false [] true [(14, .mid), (15, .post), (16, .mid)],  -- actor.runActorCommandWithConsumer commands.go:271 
+  A 11 82 false false [] true [(14, .mid), (15, .post), (16, .mid)],  -- actor.runActorCommandWithConsumer commands.go:267 
   A 6 82 false false [] true []  -- combineErrors errors.go:49 
 ]
 
 /-- exec.Cmd.Dir -/
 def g83 : List Access := [
-  A 9 83 true false [] true [(12, .pre), (13, .pre), (14, .pre)],  -- actor.makeShCmd commands.go:366 
+  A 9 83 true false [] true [(12, .pre), (13, .pre), (14, .pre)],  -- actor.makeShCmd commands.go:362 
   A 9 83 false false [] true [(12, .pre), (13, .pre), (14, .pre)],  -- actor.runActorCommandWithConsumer commands.go:73 
   A 0 83 true false [] false [(1, .post), (2, .mid), (3, .mid), (4, .mid)],  -- app.maybeRunGnuplot plot.go:340 
-  A 10 83 true false [] true [(13, .mid), (14, .mid)],  -- actor.makeShCmd commands.go:366 
+  A 10 83 true false [] true [(13, .mid), (14, .mid)],  -- actor.makeShCmd commands.go:362 
   A 10 83 false false [] true [(13, .mid), (14, .mid)],  -- actor.runActorCommandWithConsumer commands.go:73 
-  A 11 83 true false [] true [(14, .pre), (15, .pre), (16, .pre)],  -- actor.makeShCmd commands.go:366 
+  A 11 83 true false [] true [(14, .pre), (15, .pre), (16, .pre)],  -- actor.makeShCmd commands.go:362 
   A 11 83 false false [] true [(14, .pre), (15, .pre), (16, .pre)]  -- actor.runActorCommandWithConsumer commands.go:73 
 ]
 
 /-- exec.Cmd.Stdin -/
 def g84 : List Access := [
-  A 9 84 true false [] true [(12, .pre), (13, .pre), (14, .pre)],  -- actor.makeShCmd commands.go:365 
-  A 10 84 true false [] true [(13, .mid), (14, .mid)],  -- actor.makeShCmd commands.go:365 
-  A 11 84 true false [] true [(14, .pre), (15, .pre), (16, .pre)]  -- actor.makeShCmd commands.go:365 
+  A 9 84 true false [] true [(12, .pre), (13, .pre), (14, .pre)],  -- actor.makeShCmd commands.go:361 
+  A 10 84 true false [] true [(13, .mid), (14, .mid)],  -- actor.makeShCmd commands.go:361 
+  A 11 84 true false [] true [(14, .pre), (15, .pre), (16, .pre)]  -- actor.makeShCmd commands.go:361 
 ]
 
 /-- exec.Cmd.Stdout -/
@@ -1325,9 +1325,9 @@ def g85 : List Access := [
 
 /-- exec.Cmd.SysProcAttr -/
 def g86 : List Access := [
-  A 9 86 true false [] true [(12, .pre), (13, .pre), (14, .pre)],  -- actor.makeShCmd commands.go:363 
-  A 10 86 true false [] true [(13, .mid), (14, .mid)],  -- actor.makeShCmd commands.go:363 
-  A 11 86 true false [] true [(14, .pre), (15, .pre), (16, .pre)]  -- actor.makeShCmd commands.go:363 
+  A 9 86 true false [] true [(12, .pre), (13, .pre), (14, .pre)],  -- actor.makeShCmd commands.go:359 
+  A 10 86 true false [] true [(13, .mid), (14, .mid)],  -- actor.makeShCmd commands.go:359 
+  A 11 86 true false [] true [(14, .pre), (15, .pre), (16, .pre)]  -- actor.makeShCmd commands.go:359 
 ]
 
 /-- fsm.edges -/
@@ -1390,10 +1390,10 @@ def g95 : List Access := [
 
 /-- local actor.runActorCommandWithConsumer.stopRead -/
 def g96 : List Access := [
-  A 12 96 true false [] true [],  -- actor.runActorCommandWithConsumer$1 commands.go:175 
-  A 12 96 false false [] true [],  -- actor.runActorCommandWithConsumer$1 commands.go:176 
-  A 15 96 true false [] true [],  -- actor.runActorCommandWithConsumer$1 commands.go:175 
-  A 15 96 false false [] true []  -- actor.runActorCommandWithConsumer$1 commands.go:176 
+  A 12 96 true false [] true [],  -- actor.runActorCommandWithConsumer$1 commands.go:174 
+  A 12 96 false false [] true [],  -- actor.runActorCommandWithConsumer$1 commands.go:175 
+  A 15 96 true false [] true [],  -- actor.runActorCommandWithConsumer$1 commands.go:174 
+  A 15 96 false false [] true []  -- actor.runActorCommandWithConsumer$1 commands.go:175 
 ]
 
 /-- local config.parseRole.parserNames[] -/
@@ -1473,7 +1473,7 @@ def g109 : List Access := [
 
 /-- role.actionCmds[] -/
 def g110 : List Access := [
-  A 0 110 false false [] false [(1, .pre), (2, .pre), (3, .pre), (4, .pre)],  -- actor.prepareActionCommands commands.go:281 
+  A 0 110 false false [] false [(1, .pre), (2, .pre), (3, .pre), (4, .pre)],  -- actor.prepareActionCommands commands.go:277 
   A 0 110 true false [] false [(1, .pre), (2, .pre), (3, .pre), (4, .pre)],  -- config.parseRole$1 parsecfg.go:604 
   A 0 110 false false [] false [(2, .mid), (3, .mid), (4, .mid)]  -- config.printCfg config.go:357 
 ]
@@ -1494,7 +1494,7 @@ def g112 : List Access := [
 
 /-- role.cleanupCmd -/
 def g113 : List Access := [
-  A 0 113 false false [] false [(1, .pre), (2, .pre), (3, .pre), (4, .pre)],  -- actor.prepareActionCommands commands.go:295 
+  A 0 113 false false [] false [(1, .pre), (2, .pre), (3, .pre), (4, .pre)],  -- actor.prepareActionCommands commands.go:291 
   A 0 113 true false [] false [(1, .pre), (2, .pre), (3, .pre), (4, .pre)],  -- config.parseRole$1 parsecfg.go:608 
   A 0 113 false false [] false [(2, .mid), (3, .mid), (4, .mid)]  -- config.printCfg config.go:347 
 ]
@@ -1531,7 +1531,7 @@ def g117 : List Access := [
 
 /-- role.spotlightCmd -/
 def g118 : List Access := [
-  A 0 118 false false [] false [(1, .pre), (2, .pre), (3, .pre), (4, .pre)],  -- actor.prepareActionCommands commands.go:288 
+  A 0 118 false false [] false [(1, .pre), (2, .pre), (3, .pre), (4, .pre)],  -- actor.prepareActionCommands commands.go:284 
   A 0 118 true false [] false [(1, .pre), (2, .pre), (3, .pre), (4, .pre)],  -- config.parseRole$1 parsecfg.go:606 
   A 0 118 false false [] false [(2, .mid), (3, .mid), (4, .mid)],  -- config.printCfg config.go:350 
   A 6 118 false false [] true [(11, .mid)]  -- spotMgr.manageSpotlights spotlight.go:65 
